@@ -243,6 +243,27 @@ def component_of(fi, value, index, st, call_stmt, call):
     return None if _involves(fi, value, call_stmt, call) else 'other'
 
 
+def result_component(fi, d, name, call_stmt, call):
+    """Which element of the tuple returned by `call` (evaluated in statement
+    `call_stmt`) does the definition site `d` bind to `name`?  int: that
+    element - `a, b = f(..)`, `r = f(..); b = r[1]`, `b = f(..)[1]`;
+    'other': a value that does not involve the call result; None: not
+    recognised (e.g. the whole tuple)."""
+    if d in ('PARAM', 'UNBOUND'):
+        return 'other'
+    if d is call_stmt and isinstance(d, ast.Assign) and d.value is call:
+        for t in d.targets:
+            if isinstance(t, (ast.Tuple, ast.List)) and not any(isinstance(x, ast.Starred) for x in t.elts):
+                for i, x in enumerate(t.elts):
+                    if isinstance(x, ast.Name) and x.id == name:
+                        return i
+        return None
+    v = fi.def_value(d, name) if isinstance(d, (ast.Assign, ast.AnnAssign)) else None
+    if v is None:
+        return None
+    return component_of(fi, v, None, d, call_stmt, call)
+
+
 def _involves(fi, value, call_stmt, call):
     if any(n is call for n in ast.walk(value)):
         return True
@@ -261,6 +282,46 @@ def _involves(fi, value, call_stmt, call):
             if v is not None and any(call_stmt in defs_of(fi, m) for m in leaf_names(fi, v)):
                 return True
     return False
+
+
+def matrix_side(fi, e, T, depth=6):
+    """Which matrix does `e` denote relative to the parameter T: 'T' (T itself
+    up to value-preserving container conversions / aslinearoperator), 'TT'
+    (its transpose), None (not recognised).  Names with several reaching
+    definitions (operator built in both arms of an if) must agree."""
+    flip = {'T': 'TT', 'TT': 'T', None: None}
+    if depth < 0 or e is None:
+        return None
+    e = peel(fi, e)
+    if isinstance(e, ast.Name):
+        ds = defs_of(fi, e)
+        if e.id == T and ds == {'PARAM'}:
+            return 'T'
+        if not ds or any(isinstance(d, str) for d in ds):
+            return None
+        sides = set()
+        for d in ds:
+            v = fi.def_value(d, e.id) if isinstance(d, (ast.Assign, ast.AnnAssign)) else None
+            sides.add(matrix_side(fi, v, T, depth - 1))
+        return sides.pop() if len(sides) == 1 else None
+    if isinstance(e, ast.IfExp):
+        a, b = matrix_side(fi, e.body, T, depth - 1), matrix_side(fi, e.orelse, T, depth - 1)
+        return a if a == b else None
+    if isinstance(e, ast.Attribute) and e.attr == 'T':
+        return flip[matrix_side(fi, e.value, T, depth - 1)]
+    if isinstance(e, ast.Call):
+        if isinstance(e.func, ast.Attribute) and not e.args and not e.keywords:
+            if e.func.attr in ('tocsr', 'tocsc', 'tocoo', 'tolil', 'toarray', 'todense', 'copy', 'asfptype'):
+                return matrix_side(fi, e.func.value, T, depth - 1)
+            if e.func.attr == 'transpose':
+                return flip[matrix_side(fi, e.func.value, T, depth - 1)]
+        if len(e.args) == 1 and not e.keywords:
+            if _last(e) in ('aslinearoperator', 'asarray', 'array', 'asanyarray', 'ascontiguousarray', 'csr_matrix', 'csc_matrix',
+                            'coo_matrix', 'csr_array', 'csc_array'):
+                return matrix_side(fi, e.args[0], T, depth - 1)
+            if call_name(e) in ('np.transpose', 'numpy.transpose'):
+                return flip[matrix_side(fi, e.args[0], T, depth - 1)]
+    return None
 
 
 # ---------------------------------------------------------------------------
@@ -320,15 +381,20 @@ def d1_constructor(ck, mod):
     for k, v in want.items():
         got = bind.get(k)
         if got is None:
-            ok, txt = False, 'MISSING (callee default)'
-        elif k == 'assigns':
-            ok, txt = is_param(ffi, got, v), ffi.xu(got)
+            verdict, txt = 'near', 'MISSING (callee default)'
         else:
-            ok, txt = ffi.xu(got) == v, ffi.xu(got)
-        ck.check(ok, rule + '.fit', mod, c, 'MSM.fit', '%s=%s' % (k, _short(txt)),
-                 'fit forwards %s to assigns_to_counts(%s=)' % (v, k),
-                 'fit must call assigns_to_counts with %s=%s; it passes %s, so the configured value is '
-                 'not the one used for counting' % (k, v, _short(txt) if got is not None else 'nothing (callee default)'))
+            # another attribute / parameter / constant in this position is a different value (near);
+            # a helper or a method of self the rule cannot see through is not decided (far)
+            txt = ffi.xu(got)
+            verdict = classify(ffi.expand(got), [v], scope={fme, params(fit)[1]})[0]
+            if verdict == 'match' and k == 'assigns' and not is_param(ffi, got, v):
+                verdict = 'far'
+            if verdict == 'match' and k != 'assigns' and not params_intact(ffi, got, {fme}):
+                verdict = 'far'
+        ck.decide(verdict, rule + '.fit', mod, c, 'MSM.fit', '%s=%s' % (k, _short(txt)),
+                  'fit forwards %s to assigns_to_counts(%s=)' % (v, k),
+                  'fit must call assigns_to_counts with %s=%s; it passes %s, so the configured value is '
+                  'not the one used for counting' % (k, v, _short(txt) if got is not None else 'nothing (callee default)'))
 
 
 def _method_cases(ck, rule, mod, fi, init, ms):
@@ -375,6 +441,11 @@ def _method_cases(ck, rule, mod, fi, init, ms):
 # ---------------------------------------------------------------------------
 # D2 (also used for calc_imp_times, and by C11 through d2_pipeline)
 
+# value-preserving container conversions of a matrix (not a different matrix)
+_SAME_MATRIX = ('%s', '%s.copy()', '%s.tocsr()', '%s.tocsc()', '%s.tocoo()', '%s.tolil()', '%s.toarray()', 'np.asarray(%s)',
+                'np.array(%s)', 'np.asanyarray(%s)', 'scipy.sparse.csr_matrix(%s)', 'sparse.csr_matrix(%s)')
+
+
 def _pipeline(ck, rule, mod, fn, qual, is_builder, trim_atom):
     """counts -> optional trim -> builder on one data flow.  Returns
     (fi, builder statement, builder call) or None."""
@@ -391,9 +462,11 @@ def _pipeline(ck, rule, mod, fn, qual, is_builder, trim_atom):
         ck.missing(rule, 'the counts are not bound to a name: %s' % _short(sa))
         return None
     cn = sa.targets[0].id
-    tt = st.targets[0] if isinstance(st, ast.Assign) and st.value is tr and len(st.targets) == 1 else None
-    if not (isinstance(tt, (ast.Tuple, ast.List)) and len(tt.elts) == 2 and not any(isinstance(e, ast.Starred) for e in tt.elts)):
-        ck.missing(rule, 'the trimming result is not unpacked into (mapping, counts): %s' % _short(st))
+    # role: trim_disconnected returns (mapping, trimmed counts); the elements are
+    # identified by def-use from the call (tuple unpacking, `r = trim(..)` + r[0] / r[1],
+    # `trim(..)[1]`), see result_component
+    if st is None or isinstance(st, (ast.Return, ast.Expr)):
+        ck.missing(rule, 'the trimming result is not bound: %s' % _short(st if st is not None else tr))
         return None
     if not isinstance(sb, (ast.Assign, ast.Expr, ast.Return, ast.AnnAssign)):
         ck.missing(rule, 'statement of the builder call not recognised')
@@ -417,10 +490,36 @@ def _pipeline(ck, rule, mod, fn, qual, is_builder, trim_atom):
             src = origins(fi, a)
             okc = src == {(sa, cn)}
             okg = atoms == [(trim_atom, True)]
-            ck.check(okc and okg, rule + '.trim', mod, st, qual, u(st),
-                     'trimming iff %s, applied to the counted matrix' % trim_atom,
-                     'trim must be conditional on %s (found: %s) and be applied to the counts produced by assigns_to_counts%s'
-                     % (trim_atom, _atoms_text(atoms), '' if okc else ' (it receives `%s`, which is not that matrix)' % u(a)))
+            # definite: the call does not depend on the flag being set (unconditional, negated, or guarded by
+            # conditions that do not mention it); the flag inside a richer condition is not decided
+            # (unconditional, negated, guarded by conditions that do not mention it), or it depends on the flag AND
+            # on the counted data (trimming must be a function of the configuration alone)
+            import re
+            mentions = lambda t, name: re.search(r'(?<![\w.])%s(?![\w])' % re.escape(name), t) is not None
+            flag_pos = (trim_atom, True) in atoms
+            richer = any(mentions(t, trim_atom) and t != trim_atom for t, _ in atoms)
+            if okg:
+                vg = 'match'
+            elif not richer and not flag_pos:
+                vg = 'near'
+            elif not richer and flag_pos and any(t != trim_atom and mentions(t, cn) for t, _ in atoms):
+                vg = 'near'
+            else:
+                vg = 'far'
+            # definite: a parameter or a pure numpy function of the counts other than a container conversion
+            vc = 'match'
+            if not okc:
+                vc = 'near'
+                for d, nm in src:
+                    if (d is sa and nm == cn) or d == 'PARAM':
+                        continue
+                    v = fi.def_value(d, nm) if not isinstance(d, str) else None
+                    if v is None or classify(fi.expand(v), [f % cn for f in _SAME_MATRIX], scope={cn})[0] != 'near':
+                        vc = 'far'
+            ck.decide(_worst(vg, vc), rule + '.trim', mod, st, qual, u(st),
+                      'trimming iff %s, applied to the counted matrix' % trim_atom,
+                      'trim must be conditional on %s (found: %s) and be applied to the counts produced by assigns_to_counts%s'
+                      % (trim_atom, _atoms_text(atoms), '' if okc else ' (it receives `%s`, which is not that matrix)' % u(a)))
     # --- the builder receives the counted, possibly trimmed matrix
     if any(isinstance(x, ast.Starred) for x in bd.args) or any(k.arg is None for k in bd.keywords):
         ck.missing(rule + '.builder', 'arguments of the builder call: %s' % _short(bd))
@@ -435,18 +534,32 @@ def _pipeline(ck, rule, mod, fn, qual, is_builder, trim_atom):
                       '', 'the builder must receive the counted (and possibly trimmed) matrix itself')
         else:
             src = origins(fi, a)
-            trimmed = {(st, e.id) for e in tt.elts[1:] if isinstance(e, ast.Name)}
-            ok = bool(src & trimmed) and src <= ({(sa, cn)} | trimmed)
+            kinds = {}
+            for d, nm in src:
+                kinds[(d, nm)] = 'counts' if (d is sa and nm == cn) else result_component(fi, d, nm, st, tr)
+            ks = set(kinds.values())
+            ok = 1 in ks and ks <= {'counts', 1}
+            # definite: the mapping (element 0), a parameter, or only the untrimmed counts reach the builder;
+            # an origin that could not be classified (helper, arithmetic on the counts ...) is not decided
+            unknown = [k for k, v in kinds.items() if v is None or (v == 'other' and k[0] not in ('PARAM', 'UNBOUND'))
+                       or (isinstance(v, int) and v > 1)]
             why = ''
-            if not ok:
-                if (st, getattr(tt.elts[0], 'id', None)) in src:
-                    why = ' (it receives the MAPPING returned by trim_disconnected)'
-                elif not (src & trimmed):
-                    why = ' (the trimmed counts never reach the builder)'
-                else:
-                    why = ' (it may receive a value that is neither the counts nor the trimmed counts)'
-            ck.check(ok, rule + '.builder', mod, sb, qual, u(sb), 'the builder gets exactly the counted (and possibly trimmed) matrix',
-                     'the builder must be called on the counts produced above, trimmed if requested' + why)
+            if 0 in ks:
+                why = ' (it receives the MAPPING returned by trim_disconnected)'
+            elif ks == {'counts'}:
+                why = ' (the trimmed counts never reach the builder)'
+            elif not ok:
+                why = ' (it may receive a value that is neither the counts nor the trimmed counts)'
+            # an unclassified origin that is a pure numpy function of the counts alone is a DIFFERENT matrix
+            sc = {cn} | {nm for _, nm in src}
+            altered = [k for k in unknown if not isinstance(k[0], str) and fi.def_value(k[0], k[1]) is not None and
+                       classify(fi.expand(fi.def_value(k[0], k[1])), [f % n for n in sorted(sc) for f in _SAME_MATRIX], scope=sc)[0] == 'near']
+            if not ok and unknown and 0 not in ks and len(altered) < len(unknown):
+                ck.missing(rule + '.builder', 'origin of the matrix handed to the builder not recognised: %s' % '; '.join(
+                    _short(k[0], 60) if not isinstance(k[0], str) else k[0] for k in unknown[:3]))
+            else:
+                ck.check(ok, rule + '.builder', mod, sb, qual, u(sb), 'the builder gets exactly the counted (and possibly trimmed) matrix',
+                         'the builder must be called on the counts produced above, trimmed if requested' + why)
     return fi, sb, bd
 
 
@@ -472,7 +585,11 @@ def d2_pipeline(ck, mod):
             else:
                 ck.bad(rule + '.builder', mod, sb, 'MSM.fit', 'self.%s' % attr, 'fit never stores self.%s (element %d of the builder result)' % (attr, i))
             continue
-        for s, v, idx in ss:
+        # a store that another store of the same attribute follows on every path to the exit
+        # (a reset before fitting) does not determine the fitted state
+        final = [x for x in ss if not any(y[0] is not x[0] and fi.cfg.postdominates(y[0], x[0]) and not fi.cfg.reachable(y[0], x[0])
+                                          for y in ss)]
+        for s, v, idx in final or ss:
             comp = component_of(fi, v, idx, s, sb, bd)
             if comp is None:
                 ck.missing(rule + '.builder', 'value stored in self.%s not traced to the builder result: %s' % (attr, _short(s)))
@@ -489,6 +606,12 @@ def d2_pipeline(ck, mod):
 
 _SERIALISERS = {'mmwrite', 'mmread', 'savetxt', 'loadtxt', 'genfromtxt', 'save', 'load', 'savez', 'dump', 'dumps', 'loads',
                 'tofile', 'fromfile', 'write', 'read', 'writerows', 'save_npz', 'load_npz', 'to_csv', 'read_csv'}
+
+
+# (writer, readers...) of the serialisation families the rule knows
+_FAMILIES = (('mmwrite', 'mmread'), ('savetxt', 'loadtxt', 'genfromtxt'), ('save', 'load'), ('savez', 'load'),
+             ('save_npz', 'load_npz'), ('dump', 'load'), ('dumps', 'loads'), ('tofile', 'fromfile'), ('to_csv', 'read_csv'),
+             ('write', 'read'), ('writerows', 'reader'))
 
 
 def _pair_verdict(calls, accept):
@@ -690,9 +813,48 @@ def d3_saveload(ck, mod):
     else:
         cls = params(load)[0]
         star = [k for k in cons.keywords if k.arg is None]
-        ok = call_name(cons) in ('MSM', cls) and len(star) == 1 and not cons.args and len(cons.keywords) == 1
-        ck.check(ok, rule + '.config', mod, cons, 'MSM.load', u(cons) if not ok else 'MSM(**config)',
-                 'model rebuilt from the saved configuration', 'load must rebuild the model as MSM(**config)')
+        is_ctor = call_name(cons) in ('MSM', cls)
+        ok = is_ctor and len(star) == 1 and not cons.args and len(cons.keywords) == 1
+        verdict, detail = ('match' if ok else 'far'), 'load must rebuild the model as MSM(**config)'
+        if is_ctor and not ok and not star:
+            # explicit form MSM(p=config['p'], ...): every constructor parameter must be taken from the one saved
+            # mapping under its own key; a parameter that is left out is reset to its default by load (definite);
+            # constants only: the saved configuration is not used at all (definite); other values are not decided
+            init_ps0 = params(mod.func('MSM.__init__'))[1:]
+            b = bind_args(cons, init_ps0)
+            vals = list(cons.args) + [k.value for k in cons.keywords]
+            if (vals and all(isinstance(a, ast.Constant) for a in vals)) or (not vals and not _opaque_attr_writes(load, R)):
+                verdict, detail = 'near', 'load builds the model from constants: the saved configuration is ignored'
+            elif b is not None:
+                srcs, odd, base_node = set(), [], None
+                for pn, a in b.items():
+                    e = peel(fl, a)
+                    key = base = None
+                    if isinstance(e, ast.Subscript) and isinstance(const_value(e.slice), str):
+                        key, base = const_value(e.slice), peel(fl, e.value)
+                    elif isinstance(e, ast.Call) and isinstance(e.func, ast.Attribute) and e.func.attr in ('get', 'pop') and \
+                            len(e.args) == 1 and isinstance(const_value(e.args[0]), str):
+                        key, base = const_value(e.args[0]), peel(fl, e.func.value)
+                    if key is None or not isinstance(base, ast.Name) or pn not in init_ps0:
+                        odd.append(pn)
+                    else:
+                        srcs.add(base.id)
+                        base_node = base
+                        if key != pn:
+                            verdict, detail = 'near', 'constructor parameter `%s` is rebuilt from the saved entry %r' % (pn, key)
+                if not odd and len(srcs) == 1:
+                    cfgname = base_node
+                if not odd and len(srcs) == 1 and verdict != 'near':
+                    left_out = [pn for pn in init_ps0 if pn not in b]
+                    if left_out:
+                        verdict, detail = 'near', ('load rebuilds the model from explicit entries of the saved configuration and leaves out '
+                                                   '%s: after save/load %s reset to the constructor default' % (
+                                                       ', '.join('`%s`' % x for x in left_out), 'it is' if len(left_out) == 1 else 'they are'))
+                    else:
+                        verdict = 'match'
+        ck.decide(verdict, rule + '.config', mod, cons, 'MSM.load',
+                  u(cons) if not ok else 'MSM(**config)',
+                  'model rebuilt from the saved configuration', detail)
         if ok:
             cfgname = peel(fl, star[0].value)
 
@@ -781,16 +943,29 @@ def d3_saveload(ck, mod):
                         v1 = 'near' if isinstance(cfgname, ast.Name) and all(
                             d in ('PARAM', 'UNBOUND') or fl.def_value(d, cfgname.id) is not None for d in defs_of(fl, cfgname)) else 'far'
                 else:
-                    tg = [(a, v) for s, a, v, idx in attr_stores(load, R) if s is rs and idx is None] if R else []
+                    # role: the attribute of the returned object that receives what the reader returned, directly
+                    # or through a temporary (`x = mmread(..); m.tprobs_ = x`)
+                    def from_reader(v):
+                        if peel(fl, v) is rc:
+                            return True
+                        return isinstance(v, ast.Name) and isinstance(rs, ast.Assign) and defs_of(fl, v) == {rs} and \
+                            rs.value is rc and len(rs.targets) == 1 and isinstance(rs.targets[0], ast.Name)
+                    tg = [a for s, a, v, idx in attr_stores(load, R) if idx is None and v is not None and from_reader(v)] if R else []
                     if R is None or not isinstance(rs, ast.Assign):
                         v1 = 'far'
                     elif not tg:
-                        v1 = 'far' if not isinstance(rs.targets[0], ast.Attribute) else 'near'
+                        v1 = 'near' if isinstance(rs.targets[0], ast.Attribute) and rs.value is rc else 'far'
                     else:
-                        v1 = 'match' if any(a == k and peel(fl, v) is rc for a, v in tg) else 'near'
+                        v1 = 'match' if all(a == k for a in tg) else 'near'
             vr = v1
             if v1 != 'match':
                 break
+        # a consistent pair of another known (de)serialiser family is a different file format, not a mismatch
+        if vw == 'near' and vr == 'near' and w is not None:
+            wf = {i for c in w[1] for i, fam in enumerate(_FAMILIES) if _last(c) == fam[0]}
+            rf = {i for x in read.get(k, []) for c in consumers(x)[1] for i, fam in enumerate(_FAMILIES) if _last(c) in fam[1:]}
+            if wf & rf:
+                vw = vr = 'far'
         ck.decide(_worst(vw, vr), rule + '.pairs', mod, w[0] if w else save, 'MSM.save/load', '%s: %s <-> %s' % (k, wfn, rfn),
                   'matching writer/reader for %s, same attribute on both sides' % k,
                   '`%s` must be written with %s(%s) and read back with %s into msm.%s (writer: %s, reader: %s)' % (
@@ -821,17 +996,20 @@ def d3_saveload(ck, mod):
     if len(r) == 1:
         e = peel(fc, r[0].value)
         if isinstance(e, ast.Dict) and all(isinstance(const_value(k), str) for k in e.keys):
-            ckeys = {const_value(k): fc.xu(v) for k, v in zip(e.keys, e.values)}
+            ckeys = {const_value(k): v for k, v in zip(e.keys, e.values)}
         elif isinstance(e, ast.Call) and call_name(e) == 'dict' and not e.args and all(k.arg for k in e.keywords):
-            ckeys = {k.arg: fc.xu(k.value) for k in e.keywords}
+            ckeys = {k.arg: k.value for k in e.keywords}
     if ckeys is None:
         ck.missing(rule + '.config', 'MSM.config does not return a dict literal')
     else:
         for p in init_ps:
-            ck.check(ckeys.get(p) == '%s.%s' % (cme, p), rule + '.config', mod, r[0], 'MSM.config', "'%s': %s" % (p, ckeys.get(p)),
-                     'constructor parameter %s is part of the saved configuration' % p,
-                     'config lacks constructor parameter `%s` (or maps it to another attribute): MSM(**config) '
-                     'after load resets it to its default' % p)
+            got = ckeys.get(p)
+            # missing key / another attribute of self: definite; a value the rule cannot see through: not decided
+            verdict = 'near' if got is None else classify(fc.expand(got), ['%s.%s' % (cme, p)], scope={cme})[0]
+            ck.decide(verdict, rule + '.config', mod, r[0], 'MSM.config', "'%s': %s" % (p, fc.xu(got) if got is not None else None),
+                      'constructor parameter %s is part of the saved configuration' % p,
+                      'config lacks constructor parameter `%s` (or maps it to another attribute): MSM(**config) '
+                      'after load resets it to its default' % p)
         extra = set(ckeys) - set(init_ps)
         ck.check(not extra, rule + '.config', mod, r[0], 'MSM.config', 'extra keys %s' % sorted(extra),
                  'every config key is a constructor parameter', 'config has keys that __init__ does not accept: MSM(**config) raises TypeError')
@@ -862,8 +1040,18 @@ def d5_timescales(ck):
         ck.missing(rule + '.pipeline', 'assigns_to_counts call in calc_imp_times')
     else:
         want = {'assigns': assigns, 'lag_time': lag, 'max_n_states': nst, 'sliding_window': slw}
-        bad = [k for k, p in want.items() if bind.get(k) is None or not is_param(fi, bind[k], p)]
-        ck.check(not bad and set(bind) == set(want), rule + '.pipeline', mod, ac[0], Q, u(ac[0]),
+        bad, unknown = [], []
+        for k, p in want.items():
+            if bind.get(k) is None:
+                bad.append(k)
+            elif not is_param(fi, bind[k], p):
+                # another parameter / a pure function of the parameters: a different value; anything else is not decided
+                (bad if classify(fi.expand(bind[k]), [p], scope=set(ps))[0] == 'near' else unknown).append(k)
+        if unknown and not bad:
+            ck.missing(rule + '.pipeline', 'arguments of %s not recognised: %s' % (_short(ac[0], 60), ', '.join(
+                '%s=%s' % (k, _short(fi.xu(bind[k]), 40)) for k in unknown)))
+        else:
+            ck.check(not bad and set(bind) == set(want), rule + '.pipeline', mod, ac[0], Q, u(ac[0]),
                  'counts use the same lag, window and state count',
                  'assigns_to_counts must receive assigns, lag_time, sliding_window and max_n_states=n_states (wrong: %s)' % ', '.join(
                      '%s=%s' % (k, _short(fi.xu(bind[k]), 40) if bind.get(k) is not None else 'MISSING') for k in bad or sorted(set(bind) ^ set(want))))
@@ -932,11 +1120,12 @@ def d5_timescales(ck):
             E, EN = '%s[0]' % tt.id, tt.id
     elif isinstance(tt, ast.Name) and isinstance(se.value, ast.Subscript) and se.value.value is e and const_value(se.value.slice) == 0:
         E = EN = tt.id
-    if len(rets) != 1 or E is None:
+    if not rets or E is None:
         ck.missing(rule + '.formula', 'returned value / unpacking of eigenspectrum in calc_imp_times')
-    else:
-        val = rets[0].value
-        anchor = fi.stmt(peel(fi, val)) if isinstance(val, ast.Name) and peel(fi, val) is not val else rets[0]
+    # every return path (early return of the bare row / return of the padded row) yields the formula
+    for ret in (rets if E is not None else []):
+        val = ret.value
+        anchor = fi.stmt(peel(fi, val)) if isinstance(val, ast.Name) and peel(fi, val) is not val else ret
         base = _unpadded(fi, val)
         if base is not None:
             anchor, val = base
@@ -949,7 +1138,7 @@ def d5_timescales(ck):
             leaves = leaf_names(fi, val)
             if not all(defs_of(fi, n) == ({'PARAM'} if n.id == lag else {se}) for n in leaves if n.id in (lag, EN)):
                 verdict = ('far', 0, None)
-        ck.decide(verdict, rule + '.formula', mod, anchor or rets[0], Q, 'returns %s' % _short(fi.xu(val)),
+        ck.decide(verdict, rule + '.formula', mod, anchor or ret, Q, 'returns %s' % _short(fi.xu(val)),
                   't_k = -lag / log(lambda_k) for k >= 1 (stationary eigenvalue skipped)',
                   'implied timescales must be -lag_time / np.log(e_vals[1:])')
     # implied_timescales forwards its arguments to the parameter of the same meaning
@@ -1147,6 +1336,14 @@ def d5_length(ck):
     if not stacked:
         ck.missing(rule, 'the way implied_timescales assembles the rows is not recognised: %s' % _short(rv, 100))
         return
+    # the caller may normalise the rows itself before stacking them (padding call, length test): not decided here
+    caller_norm = [c for c in calls_in(fn2) if call_name(c) in _PADDERS] + [
+        a.test for a in f2.cfg.nodes if isinstance(a, Assume) and any(
+            (isinstance(c, ast.Call) and call_name(c) in lens) or (isinstance(c, ast.Attribute) and c.attr in ('shape', 'size'))
+            for c in ast.walk(f2.expand(a.test)))]
+    if caller_norm:
+        ck.missing(rule, 'implied_timescales seems to normalise the row lengths itself: %s' % _short(caller_norm[0], 80))
+        return
     ck.bad(rule, mod, rets[0] if rets else fn, 'calc_imp_times', construct,
            'with trim=True the matrix decomposed is the TRIMMED one, whose size depends on the data and the lag time, while '
            '%s was clipped against the untrimmed state count; eigenspectrum returns min(n_eigs, N) values, so the row '
@@ -1253,6 +1450,15 @@ def d3_shape(ck, mod):
                         and any(x is rc for x in ast.walk(c)):
                     if not (isinstance(c.func, ast.Attribute) and c.func.attr == 'reshape') or (c.args and const_value(c.args[0]) == -1):
                         kept = True
+            # the array passes through a call the rule does not know (a helper may restore the axis): not decided
+            known_wrappers = ('np.asarray', 'np.array', 'np.asanyarray', 'np.ascontiguousarray', 'np.squeeze', 'np.float64', 'float')
+            opaque = [c for c in ast.walk(v) if isinstance(c, ast.Call) and c is not rc and any(x is rc for x in ast.walk(c)) and
+                      not (call_name(c) in known_wrappers or (isinstance(c.func, ast.Attribute) and
+                                                             c.func.attr in ('astype', 'copy', 'squeeze') and
+                                                             any(x is rc for x in ast.walk(c.func.value))))]
+            if not kept and opaque:
+                ck.missing(rule, 'eq_probs_ read back through %s' % _short(opaque[0], 80))
+                continue
             ck.check(kept, rule, mod, s, 'MSM.load', 'dimensionality of eq_probs_ read back by load',
                      'the populations are read back as a 1-d array whatever their length',
                      '`%s`: np.%s squeezes axes of length one unless ndmin=1 is passed, so for a model with a single state '
@@ -1338,32 +1544,29 @@ def d5_ensemble(ck):
         return
     ops = set()
     verdicts = []
+    is_state = lambda x: fi.xu(x, stop=(P,)) == P
+    pick = lambda side, good: 'far' if side is None else ('match' if side == good else 'near')
     for s in adv:
         orig = peel(fi, s.value)        # node of the analysed tree that computes the new state
-        v = fi.expand(orig, stop=(P,))
-        if isinstance(v, ast.Call) and isinstance(v.func, ast.Attribute) and v.func.attr in ('rmatvec', 'matvec', 'dot', 'rmatmat', 'matmat') \
-                and len(v.args) == 1 and not v.keywords:
-            recv, arg, f = orig.func.value if isinstance(orig, ast.Call) and isinstance(orig.func, ast.Attribute) else None, v.args[0], v.func.attr
-            if recv is None:
-                verdicts.append('far')
-            elif u(arg) == P and f == 'rmatvec' and isinstance(recv, ast.Name):
-                ops.add(recv)
-                verdicts.append('match')
-            elif u(v.func.value) == P and f == 'dot' and is_param(fi, orig.args[0], T):
-                verdicts.append('match')        # p.dot(T) = p T
-            elif u(arg) == P and f in ('matvec', 'dot', 'matmat'):
-                verdicts.append('near')         # T p
-            else:
-                verdicts.append('far')
-        elif isinstance(v, ast.BinOp) and isinstance(v.op, ast.MatMult):
-            if u(v.left) == P and u(v.right) == T and params_intact(fi, orig, {T}):
-                verdicts.append('match')
-            elif u(v.right) == P:
-                verdicts.append('near')
-            else:
-                verdicts.append('far')
-        else:
-            verdicts.append('far')
+        verdict = 'far'
+        if isinstance(orig, ast.Call) and isinstance(orig.func, ast.Attribute) and len(orig.args) == 1 and not orig.keywords and \
+                orig.func.attr in ('rmatvec', 'matvec', 'dot', 'rmatmat', 'matmat'):
+            recv, arg, f = orig.func.value, orig.args[0], orig.func.attr
+            if is_state(arg) and f == 'rmatvec' and isinstance(recv, ast.Name):
+                ops.add(recv)           # p M, M = what the operator wraps: decided by `.operator` below
+                verdict = 'match'
+            elif is_state(arg) and f in ('rmatvec', 'rmatmat'):
+                verdict = pick(matrix_side(fi, recv, T), 'T')       # p M
+            elif is_state(arg) and f in ('matvec', 'dot', 'matmat'):
+                verdict = pick(matrix_side(fi, recv, T), 'TT')      # M p = p M^T: right only for M = T^T
+            elif is_state(recv) and f == 'dot':
+                verdict = pick(matrix_side(fi, arg, T), 'T')        # p.dot(M) = p M
+        elif isinstance(orig, ast.BinOp) and isinstance(orig.op, ast.MatMult):
+            if is_state(orig.left):
+                verdict = pick(matrix_side(fi, orig.right, T), 'T')
+            elif is_state(orig.right):
+                verdict = pick(matrix_side(fi, orig.left, T), 'TT')
+        verdicts.append(verdict)
     ck.decide(_worst(*verdicts), rule + '.left', mod, adv[0], Q, '; '.join(u(s) for s in adv),
               'populations advance by LEFT multiplication p <- p T (rmatvec)',
               'a population (row) vector is propagated as p T: T_op.rmatvec(p); matvec computes T p, which '
@@ -1505,6 +1708,114 @@ def d5_ensemble(ck):
                  'the trajectory of populations/observables is not collected per step')
 
 
+# ---------------------------------------------------------------------------
+# D4 addition (third wave): re-entry of eigenspectrum into itself
+
+def d4_reentry(ck):
+    """A return path of eigenspectrum that ends in a TAIL CALL of eigenspectrum
+    itself is reduced with the function's own contract: the callee returns the
+    sorted, normalised eigenpairs of M'.T if its `left` argument holds and of
+    M' otherwise, M' being the matrix argument expressed over the parameters
+    at entry (symbolic path execution: every rebinding of T on the way -
+    `T = T.T if left else T`, container conversions - is part of M').  The
+    path must deliver the eigenpairs of T.T when `left` holds on it and of T
+    otherwise, and as many of them as were asked for.  A self-call that is
+    not in tail position is not decided here."""
+    from ..core import param_default
+    from .msm_common import (Unrecognised, _sigs, norm, sclassify, strip_conversions, symexec)
+    rule = 'C16.D4.spectrum.reentry'
+    mod = ck.repo.mod(TM)
+    fn = mod.func('eigenspectrum')
+    F = 'eigenspectrum'
+    ps = params(fn)
+    if len(ps) < 3:
+        ck.missing(rule, 'signature eigenspectrum(T, n_eigs, left, ...)')
+        return
+    T, NE, LEFT = ps[:3]
+    own = [c for c in calls_in(fn) if call_name(c) == fn.name]
+    if not own:
+        ck.ok(rule, mod, fn, F, 'eigenspectrum does not call itself')
+        return
+    sigs = _sigs(ck)
+    try:
+        paths = symexec(fn, sigs)
+    except (Unrecognised, RecursionError) as e:
+        ck.missing(rule, 'eigenspectrum calls itself and the path analysis cannot model it: %s' % (e,))
+        return
+    seen = set()
+    n = 0
+    for p in paths:
+        if p.kind != 'return':
+            continue
+        v = p.value
+        inner = [c for c in ast.walk(v) if isinstance(c, ast.Call) and call_name(c) == fn.name]
+        if not inner:
+            continue
+        n += 1
+        if not (isinstance(v, ast.Call) and call_name(v) == fn.name and len(inner) == 1):
+            key = ('nontail', u(inner[0]))
+            if key not in seen:
+                seen.add(key)
+                ck.missing(rule, 'self-call of eigenspectrum that is not the returned value: %s' % _short(inner[0]))
+            continue
+        b = bind_args(v, ps)
+        if b is None or b.get(T) is None:
+            ck.missing(rule, 'arguments of the self-call %s' % _short(v))
+            continue
+        pol = p.cond(('expr', LEFT))
+        la = b.get(LEFT)
+        if la is None:
+            la = param_default(fn, LEFT)
+        # truth value of the `left` argument on this path
+        lval = None
+        if la is not None and isinstance(const_value(la), bool):
+            lval = const_value(la)
+        elif isinstance(la, ast.Name) and la.id == LEFT:
+            lval = pol
+        elif isinstance(la, ast.UnaryOp) and isinstance(la.op, ast.Not) and isinstance(la.operand, ast.Name) and la.operand.id == LEFT:
+            lval = None if pol is None else (not pol)
+        M = strip_conversions(b[T])
+        construct = '%s=%s: return %s' % (LEFT, pol, _short(v, 140))
+        if pol is None or lval is None:
+            if construct not in seen:
+                seen.add(construct)
+                ck.missing(rule, 'truth value of `%s` / of the `%s` argument on the path of the self-call %s' % (LEFT, LEFT, _short(v)))
+            continue
+        # callee decomposes M.T if lval else M; required: T.T if pol else T
+        want = T if (pol == lval) else '%s.T' % T
+        verdict = sclassify(M, [want], {T}, sigs)
+        if ('left', construct) not in seen:
+            seen.add(('left', construct))
+            ck.decide(verdict, rule, mod, p.stmt, F, construct,
+                      'the re-entered call decomposes the same (transposed) matrix as this path must',
+                      'on the path with %s=%s the function must return the eigenpairs of %s; the self-call is handed the matrix `%s` '
+                      'with %s=%s and therefore - by eigenspectrum\'s own contract - decomposes %s: the matrix reaches the call '
+                      'already transposed and is transposed a second time (or not at all), so the vectors returned are the %s '
+                      'eigenvectors (for left=True: the constant vector instead of the stationary distribution). Pass the '
+                      'untransposed matrix, or %s=False for a matrix that is already transposed'
+                      % (LEFT, pol, '%s.T' % T if pol else T, _short(b[T], 60), LEFT, lval,
+                         '(%s).T' % _short(M, 40) if lval else _short(M, 40), 'RIGHT' if pol else 'LEFT', LEFT))
+        # the same number of eigenpairs
+        N = norm(p.env.get(NE, ast.Name(id=NE, ctx=ast.Load())), sigs)
+        na = b.get(NE)
+        if na is None:
+            na = param_default(fn, NE)
+        nc = '%s=%s: self-call with %s=%s' % (NE, u(N), NE, u(na) if na is not None else 'default')
+        if nc not in seen:
+            seen.add(nc)
+            if na is None:
+                ck.missing(rule, 'number of eigenpairs requested by the self-call %s' % _short(v))
+            else:
+                forms = [u(N)]
+                if isinstance(N, ast.Subscript) and u(N) in ('%s.shape[0]' % T, '%s.shape[1]' % T, '%s.T.shape[0]' % T, '%s.T.shape[1]' % T):
+                    forms += ['None', '%s.shape[0]' % T, '%s.shape[1]' % T, '%s.T.shape[0]' % T, '%s.T.shape[1]' % T]   # square matrix
+                ck.decide(sclassify(norm(na, sigs), forms, {T, NE}, sigs), rule, mod, p.stmt, F, nc,
+                          'the re-entered call is asked for the same number of eigenpairs',
+                          'the self-call must request the number of eigenpairs this call was asked for (%s)' % u(N))
+    if not n:
+        ck.missing(rule, 'eigenspectrum calls itself (%s) but no return path carries the result' % _short(own[0]))
+
+
 def _guarded(ck, rule, f, *args):
     """An unexpected shape that makes a rule raise is an unrecognised
     construct (analysis incomplete), not an analysis error."""
@@ -1522,6 +1833,7 @@ def check(ck):
     _guarded(ck, 'C16.D2.pipeline', d2_pipeline, mod)
     _guarded(ck, 'C16.D3.save-load', d3_saveload, mod)
     check_spectrum(ck, 'C16.D4', arpack_k=True)
+    _guarded(ck, 'C16.D4.spectrum.reentry', d4_reentry)
     _guarded(ck, 'C16.D5.timescales', d5_timescales)
     # added after the bug hunt (round 4): see the docstrings
     _guarded(ck, 'C16.D5.timescales.length', d5_length)
